@@ -13,7 +13,9 @@
 (*   not have), not by itself a violation.                                 *)
 (*                                                                         *)
 (* record: [op, gen, doc, res, rows, walk, forest, errk, errrow]            *)
-(*   op  \in {"text","walk","tree","class"}  gen \in {"iter","slice"}     *)
+(*   op  \in {"text","walk","tree","mtree","class"}  gen \in {"iter","slice"} *)
+(*   ("tree": the forest decoded from the JSON / YAML output; "mtree": the  *)
+(*   same in massive mode, roots in any order)                              *)
 (*   ("class": only the accept/reject decision and the error are logged)   *)
 (*   res \in {"ok","err"}; errk \in {"","fmt","empty","nilstack","other"}  *)
 (***************************************************************************)
@@ -26,8 +28,13 @@ Trace == ndJsonDeserialize("trace.ndjson")
 VARIABLES l, bad
 tvars == <<l, bad>>
 
+\* massive mode hands the roots over in any order: the decoded forest as a multiset of trees
+CountIn(s, x) == Cardinality({i \in 1..Len(s) : s[i] = x})
+SameBag(s, t) == Len(s) = Len(t) /\ \A i \in 1..Len(s) : CountIn(s, s[i]) = CountIn(t, s[i])
+
 PayloadP(e, f) ==
   CASE e.op = "text" -> e.rows = RuleRows(f)
+    [] e.op = "mtree" -> SameBag(e.forest, f)
     [] e.op = "walk" -> e.walk = RuleWalk(f)
     [] e.op = "tree" -> e.forest = f
     [] OTHER -> TRUE
@@ -36,6 +43,7 @@ PayloadM(e, gs) ==
   CASE e.op = "text" -> e.rows = CodeRows(gs.nodes, gs.roots, LastBy)
     [] e.op = "walk" -> e.walk = CodeWalk(gs.nodes, gs.roots, LastBy)
     [] e.op = "tree" -> e.forest = ForestOf(gs.nodes, gs.roots)
+    [] e.op = "mtree" -> SameBag(e.forest, ForestOf(gs.nodes, gs.roots))
     [] OTHER -> TRUE
 
 CheckP(e) ==
